@@ -9,12 +9,13 @@
 // except according to those terms.
 
 use crate::sinks::core::{MetricSink, SinkStats};
-use crossbeam_channel::{self, Receiver, Sender, TrySendError};
+use crossbeam_channel::{self, Receiver, RecvTimeoutError, Sender, TrySendError};
 use std::fmt;
 use std::io::{self, ErrorKind};
 use std::panic::RefUnwindSafe;
 use std::sync::atomic::{AtomicBool, AtomicU64, Ordering};
 use std::sync::Arc;
+use std::time::Duration;
 #[cfg(cadence_verif)]
 use crate::verif_shim::thread;
 #[cfg(not(cadence_verif))]
@@ -409,6 +410,10 @@ impl<'a> Drop for Sentinel<'a> {
     }
 }
 
+/// How long the worker waits for a queue entry before it looks at a pending
+/// stop request again.
+const STOP_POLL_INTERVAL: Duration = Duration::from_millis(100);
+
 /// Worker to repeatedly run a method consuming entries via a channel.
 ///
 /// The `.run()` method of the worker is intended to be in a separate
@@ -481,12 +486,17 @@ impl Worker {
                 break;
             }
 
-            match self.receiver.recv() {
+            // Only wait a bounded time for the next entry: a stop requested right
+            // after the check above cannot always enqueue a poison pill to wake us up
+            // (a zero capacity queue only accepts it while we are already waiting),
+            // so the request has to be looked at again periodically.
+            match self.receiver.recv_timeout(STOP_POLL_INTERVAL) {
                 Ok(Some(v)) => {
                     self.stats.incr_drained();
                     (self.task)(v);
                 }
-                Ok(None) | Err(_) => break,
+                Err(RecvTimeoutError::Timeout) => continue,
+                Ok(None) | Err(RecvTimeoutError::Disconnected) => break,
             }
         }
 
